@@ -425,6 +425,21 @@ for rd in ('mysql', 'postgresql', 'sqlite', 'mssql', 'oracle', 'postgres', 'Snow
         render_ops.append({'k': 'render', 'd': 'mindsdb', 'sql': s_, 'rd': rd, 'fb': True, 'wp': True})
         render_ops.append({'k': 'render', 'd': 'mindsdb', 'sql': s_, 'rd': rd, 'fb': False})
 fam('render_kinds', [o for o in render_ops if o['sql'] in RENDER_EXTRA and o['rd'] in ('mysql', 'postgresql')])
+# every type name the renderer knows, in CAST and in CREATE TABLE, for every dialect name
+import sqlalchemy as _sa
+_tnames = sorted({k.upper() for k, v in _sa.types.__dict__.items() if hasattr(v, '__module__')
+                  and v.__module__ in ('sqlalchemy.sql.sqltypes', 'sqlalchemy.sql.type_api')} | {'BOOL', 'INT', 'INT8', 'FLOAT8'})
+type_ops = []
+for i, tn in enumerate(_tnames):
+    if outcome('mindsdb', 'select cast(a as %s) from t' % tn).startswith('ok'):
+        for rd in ('mysql', 'postgresql', 'sqlite', 'mssql', 'oracle', 'postgres', 'Snowflake'):
+            type_ops.append({'k': 'render', 'd': 'mindsdb', 'sql': 'select cast(a as %s) from t' % tn, 'rd': rd, 'fb': bool(i % 2)})
+    if outcome('mindsdb', 'create table t (a %s, b int)' % tn).startswith('ok'):
+        for rd in ('mysql', 'postgresql', 'sqlite', 'mssql', 'oracle'):
+            type_ops.append({'k': 'render', 'd': 'mindsdb', 'sql': 'create table t (a %s, b int)' % tn, 'rd': rd, 'fb': bool(i % 2)})
+render_ops.extend(type_ops)
+for rd in ('mysql', 'postgresql', 'sqlite', 'mssql', 'oracle', 'postgres', 'Snowflake'):
+    fam('render_types_' + rd, [o for o in type_ops if o['rd'] == rd])
 # the two alias names of the renderer's dialect table next to the dialects they map to
 fam('render_aliases', [o for o in render_ops if o['sql'] in RENDER_WP and o['rd'] in ('oracle', 'Snowflake', 'postgres', 'postgresql')])
 for rd in ('mysql', 'postgresql', 'sqlite', 'mssql', 'oracle'):
